@@ -34,8 +34,9 @@ PROPS = {
         not_covered='Obj/Seq PartialOrd (std Vec comparison), ncmp, ComparisonOperator, Extremum, sorted; incomparable kinds raise',
     ),
     'C09': dict(
-        units=['nint', 'nnumcmp', 'keys'],
-        not_covered='dictionary operations (std HashMap + closures in lib.rs); Dict-inside-key arm',
+        units=['nint', 'nnumcmp', 'keys', 'objctors'],
+        not_covered='dictionary operations (std HashMap + closures in lib.rs); total_eq_of_key_seqs (Iterator::all: assumed); the words of a dictionary nested inside a key '
+                    '(std DefaultHasher); that every ObjKey is made by to_key (private field)',
     ),
     'C11': dict(
         units=['rangeu', 'streamdef'],
@@ -46,7 +47,7 @@ PROPS = {
         not_covered='parse_decimal_exactly/parse_rational_exactly, int(str(n)), hex/base64/utf8/gzip/json codecs, chr/ord, repr',
     ),
     'C14': dict(
-        units=['index', 'nint', 'nnum', 'nnumcmp', 'builtins', 'istype', 'rangeu', 'streamdef', 'seqlib', 'radix'],
+        units=['index', 'nint', 'nnum', 'nnumcmp', 'builtins', 'istype', 'rangeu', 'streamdef', 'seqlib', 'radix', 'keys', 'objctors'],
         not_covered='every function not under contract (the other ~340 builtins, evaluate, assign_all, set_index, streams other than '
                     'Range/WrappedVec, the parser); try/catch containment and "interpreter still usable" are whole-program claims',
     ),
@@ -62,7 +63,7 @@ PROPS = {
                     'combinatorial streams; user callbacks are an uninterpreted function of (callee, arguments), effects not modelled',
     ),
     'C10': dict(
-        units=['index', 'streamdef', 'rangeu'], kani='thorough',
+        units=['index', 'streamdef', 'rangeu', 'objctors'], kani='thorough',
         not_covered='set_index, the take/drop/... builtins that call these kernels, Stream::pythonic_slice, overrides of the stream methods other than Cycle\'s',
     ),
 }
@@ -87,8 +88,11 @@ TEXT = {
             '%% is the floor remainder on rationals, and that the rounding family agrees with exact arithmetic.'),
     'C08': ('Verus proves that == and <=> on real numbers of any two levels are decided by the exact extended-real value '
             '(NaN unordered and unequal, complex lexicographic), and that min/max are driven by total orders extending it.'),
-    'C09': ('Verus proves the Eq/Hash agreement that HashMap needs for numeric keys: the words a number hashes to are a '
-            'function of its exact value, and a lemma shows key-equal numbers (== or both NaN) write identical words.'),
+    'C09': ('Verus proves the Eq/Hash agreement that HashMap needs for keys of any nesting depth: the words a number hashes to are a '
+            'function of its exact value (key-equal numbers, == or both NaN, write identical words), total_hash_of_key writes key_words(k), a '
+            'function of the key defined by recursion over lists / vectors / text / bytes, and lemma_key_words_of_equal_keys shows that '
+            'key-equal values without dictionaries inside write identical words; check_if_valid_key / to_key accept exactly the hashable '
+            'values (no stream, function or instance at any depth), which makes the panics of the hasher unreachable.'),
     'C10': ('Verus proves, for every isize index and every slice length, that the index/slice kernels of core.rs compute '
             'Python\'s index/clamp/slice functions and cannot overflow or panic; that eval.rs::index (the interpreter\'s s[i]) returns '
             'the element at the Python index on lists, bytes, vectors and strings (by UTF-8 byte) and raises an index error exactly when '
